@@ -53,8 +53,14 @@ def _pin_environment():
 
 def _run_shard(args):
     pid, tier, seed, spec, known, budget_s = args
+    import warnings
+
+    import numpy
+
     from bv import core
 
+    warnings.filterwarnings("ignore")
+    numpy.seterr(all="ignore")
     mod = importlib.import_module("bv.props.%s" % pid.lower())
     ctx = core.Ctx(pid, tier, seed, shard=spec.get("shard", 0), known=known, budget_s=budget_s)
     try:
